@@ -90,7 +90,7 @@ func SeqProfileFor(name string, seed int64) SeqProfile {
 	case "c07": // snapshot -> restore -> continue cycles over all kinds, indexes, sorted index, several blocks
 		p.PDropCol = 0.6
 		p.Cols = []ColDesc{{"a", "int", "add", numRepr()}, {"s", "str", []string{"", "concat"}[r.Intn(2)], "string"}, {"b", "bool", "", "bool"},
-			{"e", "enum", "", "enum"}, {"t", "tok", "", numRepr()}, {"y", "int", "add", "record"}}
+			{"e", "enum", "", "enum"}, {"t", "tok", "", numRepr()}, {"y", "int", "add", "record"}, {"expire", "tok", "", "int64"}}
 		p.Idx = []IdxDesc{{"big", "a", "ge", 5}, {"on", "b", "true", 0}, {"e1", "e", "eq", "e1"}}
 		p.Sorts = [][2]string{{"byS", "s"}}
 		p.SortFirst = true
@@ -124,7 +124,7 @@ func SeqProfileFor(name string, seed int64) SeqProfile {
 		} // the key table of a restored collection (what the snapshot of a key column carries after deletes)
 	case "c06": // replica convergence, sequential histories over all kinds
 		p.Cols = []ColDesc{{"a", "int", []string{"add", "affine"}[r.Intn(2)], numRepr()}, {"s", "str", []string{"", "concat"}[r.Intn(2)], "string"},
-			{"b", "bool", "", "bool"}, {"e", "enum", "", "enum"}, {"t", "tok", "", numRepr()}}
+			{"b", "bool", "", "bool"}, {"e", "enum", "", "enum"}, {"t", "tok", "", numRepr()}, {"expire", "tok", "", "int64"}}
 		p.Idx = []IdxDesc{{"big", "a", "ge", 5}}
 		p.Replica = true
 		p.Chain = r.Intn(2) == 0
